@@ -717,3 +717,64 @@ def junk_worlds(prefix):
             w.add('fsdump')
             worlds.append(w)
     return worlds
+
+
+def symlink_worlds(prefix):
+    """the snapshot directory is reached through a symbolic link (a symlinked checkout, a symlinked
+    __snapshots__, macOS /tmp): the Match* calls and Clean name the files by the same unresolved path, so what
+    the run matched - a multi-entry file and standalone files - is neither reported nor removed.  No model: its
+    file system has no links."""
+    worlds = []
+    for k, (mode, srt, deep) in enumerate([((False, ''), '-', False), ((False, 'clean'), '-', False), ((False, 'clean'), '1', True),
+                                           ((False, 'true'), '0', True), ((True, 'clean'), '-', False)]):
+        w = World('%s-symlink-%d' % (prefix, k))
+        w.add(mode_line(False, ''))
+        w.add('fssymlink %s %s' % (hx('real/store'), hx('lnk')))
+        w.add(cfg_line(1, 'lnk/snaps' if deep else 'lnk'))
+        names = [b'TestB', b'TestA'] if srt == '1' else [b'TestA', b'TestB']
+        for t, n in enumerate(names, 1):
+            w.add('begin %d %s' % (t, hx(n)))
+            w.add('snap 1 %d %s' % (t, hx(b'value of ' + n)))
+            w.add('sasnap 1 %d %s' % (t, hx(b'standalone of ' + n)))
+            w.add('end %d' % t)
+        # next run: the same calls replay, one stale entry and one stale file are present
+        w.add('reset')
+        w.add(mode_line(*mode))
+        sub = 'real/store/snaps' if deep else 'real/store'
+        w.add('fsput %s %s' % (hx(sub + '/gone_test.snap'), hx(frame(b'TestGone - 1', b'x'))))
+        for t, n in enumerate(names, 11):
+            w.add('begin %d %s' % (t, hx(n)))
+            w.add('snap 1 %d %s' % (t, hx(b'value of ' + n)), ('recorded-value-replays', exp_silent))
+            w.add('sasnap 1 %d %s' % (t, hx(b'standalone of ' + n)), ('recorded-value-replays', exp_silent))
+            w.add('end %d' % t)
+        ref = w.add('fsdump')
+        cl = w.add('clean %s - 1' % srt)
+        dele = (not mode[0]) and mode[1] in ('true', 'clean')
+
+        def exp(line, raw, ww, ref=ref, cl=cl, dele=dele):
+            before, after = parse_fs(ww.impl[ref]), parse_fs(raw)
+            out = Line(ww.impl[cl]).out.decode('utf-8', 'replace')
+            for p, c in before.items():
+                base = p.rsplit(b'/', 1)[1]
+                if base == b'gone_test.snap':
+                    if 'gone_test.snap' not in out:
+                        return 'the stale file gone_test.snap in the symlinked directory is not reported'
+                    if (p in after) == dele:
+                        return 'stale file %s (deleting=%s)' % ('kept' if p in after else 'removed', dele)
+                    continue
+                if p not in after:
+                    return 'file %r, matched in this run through the symlinked directory, was removed' % base
+                if base.decode() + '\n' in out:
+                    return 'file %r, matched in this run through the symlinked directory, is listed as obsolete' % base
+                if b'_1.snap' in base and after[p] != c:
+                    return 'standalone file %r changed' % base
+                if b'_1.snap' not in base:
+                    ids = sorted(e[0] for e in (parse_snap(after[p]) or []))
+                    if ids != [b'TestA - 1', b'TestB - 1']:
+                        return 'entries of the matched file after Clean: %r' % ids
+            if 'TestA - 1' in out or 'TestB - 1' in out:
+                return 'a matched entry is listed as obsolete'
+            return None
+        w.add('fsdump', ('symlinked-directory-matched-files-kept', exp))
+        worlds.append(w)
+    return worlds
